@@ -1253,7 +1253,13 @@ Section Editor.
       edo s <- eget;
       let '(k', t) := kr_yank (e_kr s) in
       set_kr k' ;;;
-      (match t with Some text => edit_yank text a n | None => eret tt end) ;;; eret Proceed
+      (match t with
+       | Some text =>
+         edit_yank text a n ;;;
+         (* vi: the cursor was moved back onto the last character put; the yank is forgotten (repair of F21) *)
+         (if is_emacs then eret tt else (edo s2 <- eget; set_kr (kr_reset (e_kr s2))))
+       | None => eret tt
+       end) ;;; eret Proceed
     | CViYankTo m =>
       edo s <- eget;
       match copy U seg (e_line s) m with
